@@ -3,6 +3,7 @@
 From MD Require Import Lib.Base Lib.Latin1 Model.Node Model.Keyword Model.Engine Model.Reference.
 From MD Require Import Model.Flatten Model.Json Model.Query Model.Dec.Carets.
 From MD Require Import Regex.Syntax Regex.Backtrack Generated.Regexes.
+From MD Require Import Model.Registry Generated.RegistryTable.
 
 Definition bad_args : pval := VErr (L"bad-args").
 
@@ -67,6 +68,20 @@ Fixpoint lookup_re (name : list N) (tbl : list (string * (re * nat))) : option (
 Definition val_of_mtch (m : mtch) : pval :=
   VList (map (fun sp => match sp with Some (s, e) => VList [VInt s; VInt e] | None => VList [] end) m).
 Definition no_fuel : pval := VErr (L"regex-fuel").
+
+Definition labels_of (v : pval) : list label :=
+  match v with VList l => map (fun x => match x with VStr s => s | _ => [] end) l | _ => [] end.
+
+Fixpoint dtree_of_val (v : pval) : dtree :=
+  match v with
+  | VList [VList files; VList subs] =>
+      Dir (map (fun f => match f with VList [VStr n; VBytes c] => (n, c) | _ => ([], []) end) files)
+          (map (fun d => match d with VList [VStr n; t] => (n, dtree_of_val t) | _ => ([], Dir [] []) end) subs)
+  | _ => Dir [] []
+  end.
+
+Definition val_of_searchers (l : list (label * list bytes)) : pval :=
+  VList (map (fun kw => VList [VStr (fst kw); VList (map VBytes (snd kw))]) l).
 
 Definition probe (name : list N) (arg : pval) : pval :=
   if beqb name (L"find_keywords") then
@@ -152,4 +167,12 @@ Definition probe (name : list N) (arg : pval) : pval :=
         | Some (r, _) => match fullmatch r data with Some b => VBool b | None => no_fuel end
         | None => VErr (L"unknown-regex") end
     | _ => bad_args end
+  else if beqb name (L"get_analyzers") then
+    match arg with
+    | VList [inc; exc] =>
+        VList (map VStr (get_analyzers decoder_modules (labels_of inc) (labels_of exc)))
+    | _ => bad_args end
+  else if beqb name (L"get_keywords") then val_of_searchers (get_keywords (dtree_of_val arg))
+  else if beqb name (L"splitlines") then
+    match arg with VBytes b => VList (map VBytes (splitlines b)) | _ => bad_args end
   else VErr (L"unknown-probe").
